@@ -80,6 +80,8 @@ func TestVerif_C19S(t *testing.T) {
 		// the client runs log in more than ten times within a few seconds
 		c.Base.PasswordAttemptGlobalBurstLimit = 100
 		c.Base.PasswordAttemptGlobalRateLimit = 10
+		// the web-browser login of the client (CLI token shown in the browser, cookie sent to the client's listener)
+		c.Base.WebauthTokenForCliLifetime = 10 * time.Minute
 		// an Ed25519 CA, sealed with the same passphrase as the main one
 		_, edPriv, err := ed25519.GenerateKey(rand.Reader)
 		if err != nil {
